@@ -161,6 +161,18 @@ def main():
     src = "package p\n\n" + "\n".join("func h%d() {\n\t%s\n}\n" % (j, "\n\t".join(bl)) for j, bl in enumerate(blocks))
     pairs.append(("p.patch", b"@@\nvar y expression\n@@\n ...\n use(y)\n ...\n mid()\n ...\n-use(y)\n+done(y)\n", "a.go", src.encode()))
     names.append("dots-sweep:stmts"); metas.append({"family": "dots-sweep"})
+    # every node type that implements ast.Expr as the filler of an expression metavariable (the kind test is by type);
+    # the hand-written shapes shared with C01/C03
+    EXPR_FILLERS = ["a", "1", "1.5", "'c'", "\"s\"", "1i", "f(a)", "a.b", "a[i]", "a[i:j]", "a[i:j:k]", "a.(T)", "*p", "&v", "-a", "a + b", "(a)",
+                    "func() {}", "func(x int) int { return x }", "T{}", "T{A: 1}", "[]int{1}", "[2]int{1, 2}", "[...]int{1}", "map[string]int{}",
+                    "struct{ A int }{}", "pair[int, string]", "one[int]", "both[int, string](nil, nil)", "pkg.Gen[a.T, b.T]{}", "tri[a, b, c]",
+                    "[]T", "map[K]V", "chan int", "<-chan int", "chan<- int", "interface{ M() }", "func(int) string", "*T", "<-ch", "x.y.z(1)(2)",
+                    "a && (b || !c)", "[]func(){nil}", "(*T)(nil)", "struct{}{}"]
+    src = "package p\n\nfunc h() {\n" + "".join("\t_ = wrap(%s)\n\t_ = same(%s, %s)\n" % (e, e, e) for e in EXPR_FILLERS) + "}\n"
+    pairs.append(("p.patch", b"@@\nvar x expression\n@@\n-wrap(x)\n+unwrap(x)\n", "a.go", src.encode())); names.append("expr-node-types"); metas.append({"family": "expr-node-types", "must_parse": True})
+    pairs.append(("p.patch", b"@@\nvar x expression\n@@\n-same(x, x)\n+once(x)\n", "a.go", src.encode())); names.append("expr-node-types"); metas.append({"family": "expr-node-types", "must_parse": True})
+    for nm, p, f, meta in enginegen.extra_pairs():
+        pairs.append(("p.patch", p, "a.go", f)); names.append(nm); metas.append(meta)
     res = enginecorr.run(pairs)
     for name, pair, o, meta in zip(names, pairs, res, metas):
         ck.count((pair[1], pair[3]), nontrivial=not o["skipped"])
